@@ -398,6 +398,11 @@ func GenValueText(r *rand.Rand, depth int) string {
 
 // ---- the modelled fragment of types (twin of lean/Pcore/Model/Types.lean) ---------------------------------------------
 
+// FloatBoundTexts: bound texts of Float[lo, hi] in the lexer's float shapes, in ascending order of value (zeros of both
+// signs, subnormal, around the %g switch to exponent form, the largest finite values)
+var FloatBoundTexts = []string{"-1.7976931348623157e308", "-1e308", "-2.5e3", "-1.5", "-0.0", "0.0", "5e-324", "1e-7", "0.0001", "0.1", "0.30000000000000004", "1.5", "2.5E+3", "100000.0",
+	"1000000.0", "123456789.25", "1e21", "1.0e+22", "1e308", "1.7976931348623157e308"}
+
 var fragPlain = []string{"Any", "Unit", "Undef", "Default", "Scalar", "ScalarData", "Numeric", "Data", "RichData", "Binary", "Float", "String",
 	"Callable", "Struct", "Timespan", "Timestamp", "SemVer", "SemVerRange", "URI", "Runtime", "Object", "Init", "TypeSet", "Tuple",
 	"Integer", "Boolean", "Enum", "Regexp", "Pattern", "Variant", "Array", "Hash", "Collection", "Optional", "NotUndef", "Type", "Sensitive", "Iterable", "Iterator"}
@@ -593,7 +598,27 @@ func GenFragType(r *rand.Rand, depth int) string {
 		}
 		return "Hash[" + sub() + ", " + sub() + ", " + fragSizeText(r, true) + "]"
 	}
-	switch r.Intn(9) {
+	switch r.Intn(11) {
+	case 9, 10:
+		i := r.Intn(len(FloatBoundTexts))
+		j := i + r.Intn(len(FloatBoundTexts)-i)
+		a, b := FloatBoundTexts[i], FloatBoundTexts[j]
+		if r.Intn(3) == 0 {
+			x := float64(r.Intn(4000)-2000) / 8
+			a = floatText(x)
+			b = floatText(x + float64(r.Intn(4000))/16)
+		}
+		switch r.Intn(6) {
+		case 0:
+			return "Float[" + a + "]"
+		case 1:
+			return "Float[default, " + b + "]"
+		case 2:
+			return "Float[" + a + ", default]"
+		case 3:
+			return []string{"Float[default]", "Float[default, default]", "Float[-1.7976931348623157e308, 1.7976931348623157e308]"}[r.Intn(3)]
+		}
+		return "Float[" + a + ", " + b + "]"
 	case 6, 7, 8:
 		return fragStruct(r, sub)
 	case 0:
